@@ -3,6 +3,7 @@
    handler table.  Dropping the CreateRevision comparison, the Else(OpGet), moving a put out of the
    transaction, reordering the checks of checkBootstrapRequest, or removing a handler's validation breaks a
    `reflexivity` here (and handler_table_ok in proof/C20_BootstrapProof.v). *)
+From Coq Require Import ZArith.
 From PDV Require Import lib.Skel gen.Gen_C20.
 
 Lemma skel_Bootstrap_ok : skel_Bootstrap =
